@@ -87,6 +87,8 @@ def setup():
 
 def check(prop, tier, seed):
     t0 = time.time()
+    if tier == 'thorough':
+        os.environ['VX_NO_CACHE'] = '1'
     P = load_props()
     if prop not in P.PROPS:
         print('unknown or unclaimed property', prop); return 2
@@ -166,6 +168,9 @@ def check(prop, tier, seed):
                                 dict(detail=s.get('detail')))
             violations.append('VIOLATION property=%s replay=%s obligation="static/%s" no-failing-input-found' % (prop, os.path.relpath(path, VERIF), s['id']))
 
+    extra = {}
+    if tier == 'thorough' and not violations:
+        extra = thorough_extras(prop, units, jobs, src, undecided)
     for l in known_lines:
         print(l)
     for v in violations:
@@ -173,7 +178,7 @@ def check(prop, tier, seed):
     for u in undecided:
         print('UNDECIDED property=%s %s' % (prop, u[:600]))
 
-    write_evidence(prop, tier, seed, t0, all_obl, jobs, units, known_lines, undecided, spec, violations=violations)
+    write_evidence(prop, tier, seed, t0, all_obl, jobs, units, known_lines, undecided, spec, violations=violations, extra=extra)
     if violations:
         return 1
     if undecided or not all_obl:
@@ -182,7 +187,62 @@ def check(prop, tier, seed):
     return 0
 
 
-def write_evidence(prop, tier, seed, t0, all_obl, jobs, units, known_lines, undecided, spec, violations=(), **kw):
+def thorough_extras(prop, units, jobs, src, undecided):
+    """(1) every job that took < 90 s is re-run on a second SAT back end (cadical) and must give the same verdicts;
+    (2) every seeded change recorded for this property must be reported as a VIOLATION."""
+    extra = dict(cross_backend=[], mutants_killed=[], mutants_survived=[])
+    for u in units:
+        names = [fn for (un, fn), r in jobs.items() if un == u.name and r.status == 'ok' and r.solver_s < 90]
+        if not names:
+            continue
+        saved = {}
+        for f in u.fns:
+            if f.name in names:
+                saved[f.name] = f.solver
+                f.solver = 'cadical' if f.solver != 'cadical' else 'sat'
+        res2, _ = core.verify_unit(u, names, src, 16, cover=False)
+        for f in u.fns:
+            if f.name in saved:
+                f.solver = saved[f.name]
+        for fn, r2 in res2.items():
+            r1 = jobs[(u.name, fn)]
+            v1 = sorted((o['id'], o['status']) for o in r1.obligations)
+            v2 = sorted((o['id'], o['status']) for o in r2.obligations)
+            agree = (v1 == v2) and r2.status == 'ok'
+            extra['cross_backend'].append(dict(unit=u.name, function=fn, second_backend=r2.backend, agree=agree, solver_s=round(r2.solver_s, 1)))
+            if not agree:
+                undecided.append('%s/%s: back ends disagree or second back end undecided (%s)' % (u.name, fn, r2.reason[:200]))
+    sd = os.path.join(VERIF, 'seeded')
+    for sid in sorted(os.listdir(sd)) if os.path.isdir(sd) else []:
+        mp = os.path.join(sd, sid, 'meta.json')
+        if not os.path.exists(mp):
+            continue
+        meta = json.load(open(mp))
+        if prop not in meta.get('expected_caught_by', []):
+            continue
+        import tempfile, shutil
+        tmp = tempfile.mkdtemp(prefix='seedhdr.', dir='/var/tmp')
+        try:
+            os.makedirs(os.path.join(tmp, 'include/ctpg'))
+            shutil.copy(os.path.join(core.REPO, 'include/ctpg/ctpg.hpp'), os.path.join(tmp, 'include/ctpg/ctpg.hpp'))
+            pr = subprocess.run(['patch', '-p1', '-s', '-i', os.path.join(sd, sid, 'patch.diff')], cwd=tmp, stdout=subprocess.PIPE, stderr=subprocess.STDOUT)
+            if pr.returncode != 0:
+                extra['mutants_survived'].append(dict(id=sid, reason='patch no longer applies')); continue
+            env = dict(os.environ, VX_HEADER=os.path.join(tmp, 'include/ctpg/ctpg.hpp'), VX_EVIDENCE_DIR=tmp)
+            env.pop('VX_NO_CACHE', None)
+            r = subprocess.run([os.path.join(VERIF, 'check'), prop, '--tier', 'quick'], cwd=VERIF, env=env, stdout=subprocess.PIPE, stderr=subprocess.STDOUT)
+            out = r.stdout.decode()
+            if r.returncode == 1 and 'VIOLATION' in out:
+                extra['mutants_killed'].append(dict(id=sid, obligation=[l for l in out.split('\n') if l.startswith('VIOLATION')][0][:300]))
+            else:
+                extra['mutants_survived'].append(dict(id=sid, rc=r.returncode))
+                undecided.append('seeded change %s is no longer reported (machinery too weak)' % sid)
+        finally:
+            shutil.rmtree(tmp, ignore_errors=True)
+    return extra
+
+
+def write_evidence(prop, tier, seed, t0, all_obl, jobs, units, known_lines, undecided, spec, violations=(), extra=None, **kw):
     counted = [o for o in all_obl if not o.get('known')]
     n_ok = sum(1 for o in counted if o['status'] == 'SUCCESS')
     fns = []
@@ -211,7 +271,7 @@ def write_evidence(prop, tier, seed, t0, all_obl, jobs, units, known_lines, unde
                             functions_under_contract=fns, known_findings=list(known_lines), undecided=list(undecided),
                             excluded_known_finding_obligations=[o['id'] for o in all_obl if o.get('known')],
                             header=core.HEADER, header_sha=hashlib.sha256(open(core.HEADER, 'rb').read()).hexdigest()[:16],
-                            claim=spec.get('claim', '')),
+                            claim=spec.get('claim', ''), **(extra or {})),
               assumptions=sorted(set(assumptions)), wall_s=round(time.time() - t0, 2), violations=len(violations))
     evdir = os.environ.get('VX_EVIDENCE_DIR') or os.path.join(VERIF, 'evidence')
     os.makedirs(evdir, exist_ok=True)
